@@ -76,6 +76,7 @@ def _classify(v):
     gz = v.get('info',{}).get('gz')
     if gz and ('EOFError' in w or 'BadGzipFile' in w or 'Error -3' in w or 'zlib' in w): return "gz result file cut inside a compressed record: unreadable"
     k = v.get('info',{}).get('k', 99)
+    if not isinstance(k, int): k = 99
     if (not gz and k < 13) or (k == 0): return "result file cut before the end of its version line (or left empty): cannot be resumed"
     return w.split(':')[0][:110]
 
@@ -141,7 +142,7 @@ def _killed_run(prog, f, n):
             f"    exp.run_real({prog!r}, result_file={f!r}, processes=1, maxchunksperchild=0, maxtasksperchunk=0)\n")
     d = os.path.dirname(f)
     script = os.path.join(d, 'killed_main.py'); open(script,'w').write(code)
-    env = dict(os.environ); env['PYTHONPATH'] = '/repo:' + os.path.dirname(os.path.dirname(os.path.dirname(os.path.abspath(__file__))))
+    env = dict(os.environ); env['PYTHONPATH'] = os.environ.get('VERIF_REPO','/repo') + ':' + os.path.dirname(os.path.dirname(os.path.dirname(os.path.abspath(__file__))))
     subprocess.run([sys.executable, '-W', 'ignore', script], capture_output=True, text=True, timeout=120, env=env, cwd=d)
 
 @obligation('C02','kill_between_records', bounds="a REAL run (separate interpreter) killed by os._exit right after its n-th record was written, n a z3 int over every record count, for 2 program shapes x {plain,.gz}; then resumed in-process: same oracle as C02.resume",
